@@ -256,6 +256,19 @@ static void work_shape(vrng *r, vbuf *d, int *root)
     }
 }
 
+/* parser objects defined through the header's own macros (stack / static storage) instead of exact-size heap blocks */
+static binson_parser *provided_p; static binson_state *provided_st; static int provided_depth;
+static void one_case(vrng *r, uint64_t global);
+#define WITH_DEF(name, decl, depth) static void name(vrng *r, uint64_t g) { decl; provided_p = &p; provided_st = p.state; provided_depth = (depth); one_case(r, g); provided_p = NULL; }
+WITH_DEF(case_def_default, BINSON_PARSER_DEF(p), BINSON_PARSER_DEFAULT_DEPTH)
+WITH_DEF(case_def_1, BINSON_PARSER_DEF_DEPTH(p, 1), 1)
+WITH_DEF(case_def_2, BINSON_PARSER_DEF_DEPTH(p, 2), 2)
+WITH_DEF(case_def_3, BINSON_PARSER_DEF_DEPTH(p, 3), 3)
+WITH_DEF(case_def_255, BINSON_PARSER_DEF_DEPTH(p, 255), 255)
+WITH_DEF(case_def_static, BINSON_PARSER_DEF_STATIC(p), BINSON_PARSER_DEFAULT_DEPTH)
+WITH_DEF(case_def_static_4, BINSON_PARSER_DEF_DEPTH_STATIC(p, 4), 4)
+static void case_initializer(vrng *r, uint64_t g) { binson_parser p = BINSON_PARSER(5); provided_p = &p; provided_st = p.state; provided_depth = 5; one_case(r, g); provided_p = NULL; }
+
 static void one_case(vrng *r, uint64_t global)
 {
     actx c; memset(&c, 0, sizeof c);
@@ -281,11 +294,21 @@ static void one_case(vrng *r, uint64_t global)
     /* ---- configuration ---- */
     uint32_t dk = vrn(r, 10);
     c.max_depth = dk < 5 ? 1 + (int)vrn(r, 4) : (dk < 7 ? 255 : 1 + (int)vrn(r, 255));
+    uint32_t fill = vrn(r, 5);
+    if (provided_p) {
+        /* whatever the macro left in the object (stack contents / zeroed static) is the prior content; the macro's own
+         * state pointer and max_depth are what the parser must live with */
+        c.p = provided_p; c.st = provided_st; c.max_depth = provided_depth;
+        if (c.p->max_depth != (uint_fast8_t)provided_depth || c.p->state != provided_st) fail(&c, "c01:macro-config", "the BINSON_PARSER_DEF* macro did not set state/max_depth as documented");
+        fill = 9;
+        vw_count("cases_with_macro_defined_parser", 1);
+    } else {
     c.p = (binson_parser *)malloc(sizeof(binson_parser));
     c.st = (binson_state *)malloc(sizeof(binson_state) * (size_t)c.max_depth);
-    uint32_t fill = vrn(r, 5);
+    }
     size_t stsz = sizeof(binson_state) * (size_t)c.max_depth;
     switch (fill) {
+    case 9: break;
     case 0: memset(c.p, 0x00, sizeof *c.p); memset(c.st, 0x00, stsz); break;
     case 1: memset(c.p, 0xFF, sizeof *c.p); memset(c.st, 0xFF, stsz); break;
     default:
@@ -294,7 +317,7 @@ static void one_case(vrng *r, uint64_t global)
         if (fill == 3) c.p->depth = (uint_fast8_t)(c.max_depth + 1 + (int)vrn(r, 20));
         if (fill == 4) c.p->error_flags = BINSON_ERROR_NONE;
     }
-    c.p->state = c.st; c.p->max_depth = (uint_fast8_t)c.max_depth;
+    if (!provided_p) { c.p->state = c.st; c.p->max_depth = (uint_fast8_t)c.max_depth; }
     set_input(&c, c.doc0.p, c.doc0.n);
     /* ---- calls ---- */
     no_retarget = true;
@@ -329,7 +352,7 @@ static void one_case(vrng *r, uint64_t global)
         vw_sample(vb_cstr(&s)); vb_free(&s);
     }
     (void)global;
-    vg_free(c.buf, c.n); free(c.pristine); free(c.p); free(c.st);
+    vg_free(c.buf, c.n); free(c.pristine); if (!provided_p) { free(c.p); free(c.st); }
     vb_free(&c.trace); vb_free(&c.doc0);
 }
 
@@ -344,7 +367,18 @@ int main(int argc, char **argv)
         vw_case(k);
         vr_seed(&r, VA.seed, VA.wid, k);
         va_reset();
-        one_case(&r, k * VA.nworkers + VA.wid);
+        uint64_t g = k * VA.nworkers + VA.wid;
+        switch (k % 16 == 7 ? (int)((k / 16) % 8) : -1) {
+        case 0: case_def_default(&r, g); break;
+        case 1: case_def_1(&r, g); break;
+        case 2: case_def_2(&r, g); break;
+        case 3: case_def_3(&r, g); break;
+        case 4: case_def_255(&r, g); break;
+        case 5: case_def_static(&r, g); break;
+        case 6: case_def_static_4(&r, g); break;
+        case 7: case_initializer(&r, g); break;
+        default: one_case(&r, g);
+        }
     }
     for (int i = 0; i < A_NCALLS; i++) { char nm[64]; snprintf(nm, sizeof nm, "call_%s", ANAME[i]); vw_count(nm, callcount[i]); }
     return vw_finish();
